@@ -735,12 +735,22 @@ fn dump_crate<'tcx>(tcx: TyCtxt<'tcx>, name: &str) -> J {
             }
             let t = tcx.type_of(did).instantiate_identity().skip_norm_wip();
             let generic = tcx.generics_of(did).count() > 0;
+            // memory layout of plain structs (size, field offsets): lets the rules decode `const TABLE: [S; N]` from its bytes
+            let mut layout_j = J::Null;
+            if !generic && adt.is_struct() {
+                if let Ok(l) = tcx.layout_of(TypingEnv::fully_monomorphized().as_query_input(t)) {
+                    let n = adt.non_enum_variant().fields.len();
+                    let offs: Vec<J> = (0..n).map(|i| J::Int(l.fields.offset(i).bytes() as i128)).collect();
+                    layout_j = J::obj(vec![("size", J::Int(l.size.bytes() as i128)), ("offsets", J::Arr(offs))]);
+                }
+            }
             let cell = if generic { J::Null } else { J::Bool(has_unsafe_cell_deep(tcx, t, &mut Vec::new(), 0)) };
             adts.push(J::obj(vec![
                 ("path", J::Str(path(tcx, did))),
                 ("kind", J::Str(format!("{:?}", kind))),
                 ("variants", J::Arr(variants)),
                 ("unsafe_cell_deep", cell),
+                ("layout", layout_j),
             ]));
         }
     }
